@@ -30,4 +30,30 @@ PROPS = {
             "usize is 64 bit",
         ],
     },
+    "C14": {
+        "title": "RaftLog behaves as one logical log over storage + unstable + snapshot",
+        "modules": ["top", "prelude", "pb", "log_unstable", "storage_trait", "raft_log"],
+        "body": ["log_unstable", "storage_trait", "config", "util", "raft_log"],
+        "modes": ["P", "S"],
+        "claim": "FULL (relative to the Storage trait contract, which module memstorage/C19 proves for MemStorage)",
+        "decided": [
+            "every query of Unstable and RaftLog (first/last index, term, match_term, last_term, find_conflict, find_conflict_by_term, "
+            "is_up_to_date, entries, slice, next_entries_since, has_next_entries_since, commit_info) equals the logical-log model "
+            "(snapshot point + contiguous entries; unstable wins from its offset) for every state satisfying the representation invariant",
+            "every mutator (append, truncate_and_append, maybe_append, commit_to, maybe_commit, maybe_persist, maybe_persist_snap, "
+            "stable_entries, stable_snap, restore, applied_to) transforms the model as stated, preserves the invariant "
+            "(committed <= last, persisted < unstable offset), raises persisted only to an index stable storage holds with the matching term, "
+            "and never alters an entry at or below the commit index (mode S: on every normal return, with no assumption on the arguments)",
+            "size-limited reads return limit_prefix (non-empty maximal prefix within the limit) of the model range, incl. the storage/unstable stitch lemma",
+        ],
+        "undecided": ["RaftLog::scan (FnMut callback) and all_entries (test-only) are not under contract"],
+        "bounded": ["util::limit_size itself is an assumed contract in Verus; bounded Kani stand-in on the extracted text (thorough tier)"],
+        "assumptions": [
+            "the Storage implementation satisfies the trait contract of spec/storage_trait.vrs and the application keeps it so between calls",
+            "indexes/terms/sizes < 2^62, collection lengths < 2^32 (explicit requires)",
+            "entries in messages carry term > 0; (index 0, term 0) is the dummy entry",
+            "Unstable.entries_size byte accounting is cut out (R10): no property reads it",
+            "util::limit_size returns limit_prefix (assumed in Verus)",
+        ],
+    },
 }
